@@ -142,3 +142,11 @@ NOT_APPLICABLE = {
            "schedule, fault or environment for a simulator to control; input enumeration/SMT would be a "
            "different technique (DESIGN.md section 3, C19)",
 }
+
+HOOK_COMMITS = []
+
+ENGINE_TEXT = {
+    "histsim": "single-task deterministic simulator: seeded operation/fault plans executed against real library "
+               "allocators over a simulated upstream (SimHeap) with a shadow model; plans are replayable and "
+               "minimised by ddmin",
+}
